@@ -98,6 +98,15 @@ func relay(c *fw.Case, t *pdus.Type, b []byte, canonical bool, class string) {
 			c.Failf("canonical-not-reproduced/"+t.Key(), "re-encoding a canonical image does not reproduce it bit-for-bit (optional parameters as a set)\n   image=%s\nre-encoded=%s", hx(in), hx(e2))
 		}
 	}
+	c.Echo("relay/"+t.Key(), func() string {
+		d := t.New()
+		if err := d.IDecode(append([]byte(nil), in...)); err != nil {
+			return "rejected"
+		}
+		desc := fmt.Sprintf("%016x", fw.HashStr(pdus.Describe(lt, pdus.Extract(lt, d))))
+		e, err := d.IEncode()
+		return desc + " / " + canonImage(t, e, err)
+	})
 	c.Cover("relay/" + t.Key() + "/" + class + "/stable")
 	c.Sample(2, map[string]any{"type": t.Key(), "class": class, "input": hx(in), "re_encoded": hx(e2), "canonical": canonical})
 }
